@@ -165,6 +165,104 @@ def pairTags (a b : Float) : String :=
         ++ (if hi < -708.0 then " underflow-range" else "")
       else "")
 
+
+/-! ### long accumulations (`lsum`, `lcumsum`, `lchain`; seed C15-6)
+
+The operands come as a run-length list (`x` or `x*k`).  The exact reference is accumulated in **one pass** (the
+per-prefix recomputation of `cumsum` above is quadratic): running maximum `M`, `S = Σ exp (xᵢ − M)` (rescaled when the
+maximum moves) and the literal f64 running sum `L = Σ exp xᵢ`; the implementation's sampled partial results are
+compared at their positions with the same two readings as in `checkLin`. -/
+
+def parseRle (s : String) : Option (List (Float × Nat)) :=
+  (s.splitOn ",").mapM fun it =>
+    match it.splitOn "*" with
+    | [x] => do pure ((← parseFloat x), 1)
+    | [x, k] => do let k ← parseNat k; if k = 0 then none else pure ((← parseFloat x), k)
+    | _ => none
+
+structure Acc where
+  M : Float
+  S : Float
+  L : Float
+  idx : Nat
+  outs : List Float
+  last : Float
+  lit : Bool
+  soft : Option String
+  err : Option String
+
+/-- compare one reported (log) value with the reference state.  `relToSum`: tolerance 0.5 % of the exact sum
+(chains of additions: the accumulator is itself an operand) instead of 0.5 % of the largest list entry.
+For `relToSum = false` a value that misses the largest-operand bound in both readings but is within 0.5 % of the
+exact sum is reported separately (`soft …`): the error of the real code grows with the *sum* (δ · Σ, theorem
+`ln_cumsum_exp_error`), which exceeds 0.5 % of the largest entry once thousands of entries of similar size are
+summed — known finding C15-long-list-bound. -/
+def checkAt (M S L r : Float) (relToSum : Bool) : String :=
+  if r.isNaN then "reject nan" else
+  if isPosInf r then "reject plus-inf" else
+  if isNegInf M then (if isNegInf r then "ok" else s!"reject zero-operands-nonzero-result got={fshow r}") else
+  let got := sexp r M
+  let tol := if relToSum then tolFast * S else tolFast
+  if (got - S).abs ≤ tol then "ok" else
+  let ltol := if relToSum then tolFast * L else tolFast * Float.exp M
+  if (Float.exp r - L).abs ≤ ltol then "ok literal-only" else
+  if !relToSum && (got - S).abs ≤ tolFast * S then
+    s!"soft scaled-expected={fshow S} scaled-got={fshow got} largest-operand-ln={fshow M}" else
+  s!"reject value scaled-expected={fshow S} scaled-got={fshow got} largest-operand-ln={fshow M}"
+
+def Acc.feed (st : Acc) (x : Float) (stride n : Nat) (relToSum : Bool) : Acc :=
+  let st : Acc :=
+    if isNegInf x then { st with idx := st.idx + 1 }
+    else if isNegInf st.M || x > st.M then
+      { st with M := x, S := (if isNegInf st.M then 0.0 else st.S * Float.exp (st.M - x)) + 1.0,
+                L := st.L + Float.exp x, idx := st.idx + 1 }
+    else { st with S := st.S + Float.exp (x - st.M), L := st.L + Float.exp x, idx := st.idx + 1 }
+  if st.idx % stride = 0 || st.idx = n then
+    match st.outs with
+    | [] => { st with err := some "reject output-length" }
+    | r :: rest =>
+      let v := checkAt st.M st.S st.L r relToSum
+      if isOk v then { st with outs := rest, last := r, lit := st.lit || v != "ok" }
+      else if v.startsWith "soft " then
+        { st with outs := rest, last := r, soft := st.soft.orElse fun _ => some (v ++ s!" at-prefix={st.idx}") }
+      else { st with err := some (v ++ s!" at-prefix={st.idx}") }
+  else st
+
+def Acc.run (x : Float) (stride n : Nat) (relToSum : Bool) : Nat → Acc → Acc
+  | 0, st => st
+  | k + 1, st => if st.err.isSome then st else Acc.run x stride n relToSum k (st.feed x stride n relToSum)
+
+def accumulate (runs : List (Float × Nat)) (outs : List Float) (stride : Nat) (relToSum : Bool) : Acc :=
+  let n := runs.foldl (fun a r => a + r.2) 0
+  let st := runs.foldl (fun st r => Acc.run r.1 stride n relToSum r.2 st)
+    { M := negInf, S := 0.0, L := 0.0, idx := 0, outs := outs, last := nan, lit := false, soft := none, err := none }
+  if st.err.isNone && !st.outs.isEmpty then { st with err := some "reject output-length" } else st
+
+/-- coverage tags of a long list: length, order of magnitude between the largest and the smallest finite entry,
+position of the largest entry, mass of everything but the maxima relative to the largest entry -/
+def longTags (runs : List (Float × Nat)) (st : Acc) : String :=
+  let n := runs.foldl (fun a r => a + r.2) 0
+  let fin := (runs.map (·.1)).filter finite
+  let lo := fin.foldl (fun m x => if x < m then x else m) st.M
+  let dec := ((st.M - lo) / ln10).floor.toUInt64.toNat
+  let nmax := (runs.filter (·.1 == st.M)).foldl (fun a r => a + r.2) 0
+  let tail := st.S - Float.ofNat nmax
+  (if n ≥ 100000 then " n>=1e5" else if n ≥ 10000 then " n>=1e4" else if n ≥ 1000 then " n>=1e3" else " n<1e3")
+  ++ s!" span-1e{dec}"
+  ++ (match runs with | (x, _) :: _ => if x == st.M then " peak-first" else " peak-later" | [] => "")
+  ++ (if tail ≥ 0.05 then " tail-mass>=5%" else if tail ≥ 0.01 then " tail-mass>=1%" else " tail-mass<1%")
+  ++ (if runs.any (fun r => isNegInf r.1) then " ln0" else "")
+  ++ (if st.lit then " literal-only" else "")
+
+/-- verdict text of the known finding: within 0.5 % of the exact sum, beyond 0.5 % of the largest operand -/
+def softVerdict (op : String) (v : String) : String :=
+  "reject beyond-largest-operand-bound-within-sum-bound " ++ op ++ " " ++ (v.drop 5).toString
+
+def longNt (runs : List (Float × Nat)) : Bool := (runs.filter (fun r => finite r.1)).foldl (fun a r => a + r.2) 0 ≥ 2
+
+def crossBucket (d : Float) : String :=
+  if d ≤ 1e-6 then "cross<=1e-6" else if d ≤ 1e-4 then "cross<=1e-4" else if d ≤ 1e-3 then "cross<=1e-3" else "cross<=1e-2"
+
 def verdict (toks : List String) (out : String) : String :=
   if out.startsWith "PANIC" || out.startsWith "HANG" || out.startsWith "CRASH" then "reject " ++ out.replace " " "_" else
   match toks with
@@ -290,6 +388,47 @@ def verdict (toks : List String) (out : String) : String :=
           | none => s!"reject conversion expected={fshow e} got={fshow r}"
       | _, _ => "bad-op chain"
     | _, _ => "bad-op parse"
+  | ["lsum", l] =>
+    match parseRle l, parseFloat out with
+    | some runs, some r =>
+      let n := runs.foldl (fun a r => a + r.2) 0
+      let st := accumulate runs [r] n false
+      match st.err, st.soft with
+      | some e, _ => e
+      | none, some v => softVerdict "lsum" v
+      | none, none => "ok" ++ (if longNt runs then " nt" else "") ++ " lsum" ++ longTags runs st
+    | _, _ => "bad-op parse"
+  | ["lcumsum", stride, l] =>
+    match parseNat stride, parseRle l, out.splitOn " " with
+    | some stride, some runs, [ps, total] =>
+      match parseFloatList ps, parseFloat total with
+      | some outs, some tot =>
+        if stride = 0 then "bad-op stride" else
+        let st := accumulate runs outs stride false
+        match st.err with
+        | some e => e
+        | none =>
+          -- the n-ary sum of the same list: against the reference, and against the last cumulative value
+          -- (both are within 0.5 % of the largest operand of the same exact number, hence within 1 % of each other)
+          let v := checkAt st.M st.S st.L tot false
+          if v.startsWith "reject" then v ++ " ln_sum_exp-of-the-list" else
+          let d := if isNegInf st.M then 0.0 else (sexp st.last st.M - sexp tot st.M).abs
+          let tolX := if st.soft.isSome || v.startsWith "soft" then 2.0 * tolFast * st.S else 2.0 * tolFast
+          if !(d ≤ tolX) then s!"reject cumsum-last-vs-sum last={fshow st.last} sum={fshow tot}" else
+          if v.startsWith "soft" then softVerdict "lsum-of-lcumsum" v else
+          if let some sv := st.soft then softVerdict "lcumsum" sv else
+          "ok" ++ (if longNt runs then " nt" else "") ++ " lcumsum " ++ crossBucket d ++ longTags runs st
+      | _, _ => "bad-op output"
+    | _, _, _ => "bad-op parse"
+  | ["lchain", order, stride, l] =>
+    match parseNat stride, parseRle l, parseFloatList out with
+    | some stride, some runs, some outs =>
+      if stride = 0 || !(order = "l" || order = "r" || order = "a") then "bad-op stride/order" else
+      let st := accumulate runs outs stride true
+      match st.err with
+      | some e => e
+      | none => "ok" ++ (if longNt runs then " nt" else "") ++ " lchain-" ++ order ++ longTags runs st
+    | _, _, _ => "bad-op parse"
   | _ => "bad-op unknown"
 
 end RbV.Drv.C15
